@@ -42,6 +42,48 @@ create_chunks_with_identifier = Contract(
     replay="harness.c10:chunks_ident_adapter",
 )
 
-CONTRACTS = [create_chunks_with_identifier]
+_C = "target_column"
+_IS_T = "(fr_bool(old(data), %s)[i] if fr_isbool(old(data), %s) else fr_int(old(data), %s)[i] == 1)" % (_C, _C, _C)
+
+convert_targets_column = Contract(
+    target="mokapot.utils.convert_targets_column",
+    params={"data": "Frame", "target_column": "str"},
+    returns="Frame",
+    modifies=["data"],            # the column is replaced in place and the same frame is returned
+    raises={"ValueError": "not fr_isbool(data, target_column) and any(fr_int(data, target_column)[i] < -1 or "
+                          "fr_int(data, target_column)[i] > 1 for i in range(fr_len(data)))"},
+    ensures=[
+        "result == data",
+        # rows are never dropped
+        "fr_len(result) == fr_len(old(data))",
+        # targets are exactly the rows labelled 1 / True; 0 and -1 are decoys
+        "fr_isbool(result, target_column)",
+        "all(fr_bool(result, target_column)[i] == %s for i in range(fr_len(old(data))))" % _IS_T,
+        # nothing outside [-1, 1] was accepted
+        "implies(not fr_isbool(old(data), target_column), all(-1 <= fr_int(old(data), target_column)[i] <= 1 "
+        "for i in range(fr_len(old(data)))))",
+        # no other column is touched
+        "forall(lambda d: implies(d != target_column, fr_isbool(result, d) == fr_isbool(old(data), d) and "
+        "fr_int(result, d) == fr_int(old(data), d) and fr_bool(result, d) == fr_bool(old(data), d)), "
+        "types={'d': 'str'})",
+    ],
+    replay="harness.c10:convert_targets_adapter",
+)
+
+CONTRACTS = [create_chunks_with_identifier, convert_targets_column]
 ALSO_VERIFY = [("shared", "mokapot.utils.create_chunks")]
 BOUNDED = {"module": "harness.c10"}
+
+MUTANTS = [
+    {"name": "inverse-fix-identifier-chunks", "target": "mokapot.parsers.pin.create_chunks_with_identifier",
+     "find": "    if len(data) % chunk_size + len(identifier_column) <= chunk_size:",
+     "replace": "    if (len(data) + len(identifier_column)) % chunk_size != 1:"},
+    {"name": "identifier-first", "target": "mokapot.parsers.pin.create_chunks_with_identifier",
+     "find": "        data_copy = data + identifier_column", "replace": "        data_copy = identifier_column + data"},
+    {"name": "labels-zero-is-target", "target": "mokapot.utils.convert_targets_column",
+     "find": "    data[target_column] = labels == 1", "replace": "    data[target_column] = labels >= 0"},
+    {"name": "labels-range-not-checked", "target": "mokapot.utils.convert_targets_column",
+     "find": "    if any(labels < -1) or any(labels > 1):", "replace": "    if any(labels < -1):"},
+    {"name": "chunks-overlap", "target": "mokapot.utils.create_chunks",
+     "find": "for i in range(0, len(data), chunk_size)]", "replace": "for i in range(0, len(data), chunk_size - 1)]"},
+]
